@@ -71,12 +71,14 @@ type PlaceHook struct {
 	Failed   bool   `json:"failed"`
 	Err      string `json:"err,omitempty"`
 	TmpAfter int    `json:"tmp_after"`
+	EntryDir int    `json:"entry_dir"` // number of the directory holding the entry (os.Stat of the directory part; for the tags only)
 }
 
 type PlaceObs struct {
 	Nodes   []PNode     `json:"nodes"`
 	Parents [][2]int    `json:"parents"` // directory -> parent
 	Hooks   []PlaceHook `json:"hooks"`
+	Via     string      `json:"via,omitempty"` // manager: hook.Manager.Init loaded the hooks; direct: see runPlace
 	Note    string      `json:"note,omitempty"`
 }
 
@@ -84,6 +86,7 @@ const settingsName = "settings"
 
 func scriptText(id int) string {
 	return "#!/bin/sh\n# id=" + strconv.Itoa(id) + "\n" +
+		"if [ \"$1\" = \"--config\" ]; then echo '{\"configVersion\":\"v1\",\"onStartup\":1}'; exit 0; fi\n" +
 		"s=-\n" +
 		"if [ -f ./settings ]; then { read -r l1; read -r l2; } < ./settings; s=${l2#\"# id=\"}; fi\n" +
 		"printf 'id=%s\\nargv0=%s\\ncwd=%s\\nsettings=%s\\n' " + strconv.Itoa(id) + " \"$0\" \"$(pwd -P)\" \"$s\" > \"$VERIF_C12_REPORT\"\n"
@@ -251,25 +254,41 @@ func runPlace(in Input) *PlaceObs {
 
 	// the hook manager's WorkingDir: an absolute, cleaned path (utils.RequireExistingDirectory), not resolved
 	root := filepath.Join(sandbox, filepath.FromSlash(in.Place.Root))
-	paths, err := utils_file.RecursiveGetExecutablePaths(root)
-	if err != nil {
-		return o // no hooks root: nothing is run
-	}
-	sort.Strings(paths)
-	for k, p := range paths {
-		// as Manager.loadHook
-		name, err := filepath.Rel(root, p)
-		if err != nil || name == "." || strings.HasPrefix(name, "..") {
-			continue // the root itself is not a directory
+	// the real hook manager finds and loads the hooks (every script answers --config); when that fails - Init
+	// gives up at the first entry it cannot run: a dangling link, a link to a directory - the hooks are found by
+	// the discovery function Init uses and made as Manager.loadHook makes them
+	var hooks []*hook.Hook
+	hm := hook.NewHookManager(&hook.ManagerConfig{WorkingDir: root, TempDir: tmpDir, Logger: log.NewNop()})
+	if err := hm.Init(); err == nil {
+		o.Via = "manager"
+		for _, n := range hm.GetHookNames() {
+			hooks = append(hooks, hm.GetHook(n))
 		}
-		h := hook.NewHook(name, p, false, false, "", log.NewNop())
-		h.Config = &config.HookConfig{Version: "v1"}
-		h.WithHookController(controller.NewHookController())
-		h.WithTmpDir(tmpDir)
+	} else {
+		o.Via = "direct"
+		paths, err := utils_file.RecursiveGetExecutablePaths(root)
+		if err != nil {
+			return o // no hooks root: nothing is run
+		}
+		sort.Strings(paths)
+		for _, p := range paths {
+			name, err := filepath.Rel(root, p)
+			if err != nil || name == "." || strings.HasPrefix(name, "..") {
+				continue // the root itself is not a directory
+			}
+			h := hook.NewHook(name, p, false, false, "", log.NewNop())
+			h.Config = &config.HookConfig{Version: "v1"}
+			h.WithHookController(controller.NewHookController())
+			h.WithTmpDir(tmpDir)
+			hooks = append(hooks, h)
+		}
+	}
+	for k, h := range hooks {
+		name, p := h.Name, h.Path
 		rep := filepath.Join(repDir, fmt.Sprintf("r%d", k))
 		os.Setenv("VERIF_C12_REPORT", rep)
 		_, rerr := h.Run(htypes.OnStartup, []bctx.BindingContext{}, map[string]string{})
-		ph := PlaceHook{Rel: filepath.ToSlash(name), Settings: -1, Cwd: 999, Failed: rerr != nil, TmpAfter: countFiles(tmpDir)}
+		ph := PlaceHook{Rel: filepath.ToSlash(name), Settings: -1, Cwd: 999, Failed: rerr != nil, TmpAfter: countFiles(tmpDir), EntryDir: sc.dirNumber(filepath.Dir(p))}
 		if rerr != nil {
 			ph.Err = strings.ReplaceAll(rerr.Error(), base, "")
 		}
@@ -386,7 +405,7 @@ func renderPlace(in Input, obs *Obs, crash string) core.Case {
 
 // tags from what was scanned and found: how each hook is present in the tree
 func placeTags(in Input, po PlaceObs) []string {
-	tags := []string{"class:place", fmt.Sprintf("place-hooks:%d", min(len(po.Hooks), 4))}
+	tags := []string{"class:place", fmt.Sprintf("place-hooks:%d", min(len(po.Hooks), 4)), "place-via:" + po.Via}
 	if in.Place.Layout != "" {
 		tags = append(tags, "place-layout:"+in.Place.Layout)
 	}
@@ -423,7 +442,7 @@ func placeTags(in Input, po PlaceObs) []string {
 		// the entry of the hook: the scanned node whose name is the last name of the hook
 		base := h.Rel[strings.LastIndexByte(h.Rel, '/')+1:]
 		for _, n := range po.Nodes {
-			if n.Name != base {
+			if n.Name != base || n.Dir != h.EntryDir {
 				continue
 			}
 			switch {
